@@ -94,11 +94,31 @@ def check_frees(idx: Index, rep: Report) -> None:
 def check_stack(idx: Index, rep: Report) -> None:
     r = rep.rule("C19.R2", "RegisterStack: push never makes a reserved or non-allocatable physical register available, pop never returns a reserved one, reservation changes never change availability, reserve/unreserve are paired", floor=5)
     f = idx.func(RS, "RegisterStack.push")
-    t = re.sub(r"\s+", " ", unparse(f.node))
-    if "if (index in self.reserved_registers[pool_key] or index not in self.allocatable_registers[pool_key]) and 0 <= index: return" in t:
-        r.ok(f.fq, f"{f.loc} reserved / non-allocatable physical registers are not pushed")
+    from ..paths import enum_paths, expand_predicates
+
+    bad_push = []
+    n_app = 0
+    for pth in expand_predicates(enum_paths(f.node), {}):
+        if not pth.feasible():
+            continue
+        apps = [k for k, e_ in enumerate(pth.effects) if isinstance(e_, ast.Expr) and isinstance(e_.value, ast.Call) and call_attr(e_.value) in ("append", "add", "insert") and "available" in pth.res(e_.value.func.value, k)]  # type: ignore[attr-defined]
+        if not apps:
+            continue
+        n_app += 1
+        nf = pth.nfacts()
+        ix = pth.res(ast.parse("index", mode="eval").body, apps[0])
+        neg = any((t_ in (f"{ix} < 0", "index < 0") and p_) or (t_ in (f"{ix} >= 0", f"0 <= {ix}", "index >= 0", "0 <= index") and not p_) for t_, p_ in nf)
+        reserved = next((p_ for t_, p_ in nf if re.fullmatch(r".+ in self\.reserved_registers\[.+\]", t_)), None)
+        allocatable = next((p_ for t_, p_ in nf if re.fullmatch(r".+ in self\.allocatable_registers\[.+\]", t_)), None)
+        if neg or (reserved is False and allocatable is True):
+            continue
+        bad_push.append(f"a path makes the register available with reserved={reserved}, allocatable={allocatable}, negative index={neg}")
+    if n_app == 0:
+        raise AnalysisError(f"{f.fq}: no path appends to the available registers")
+    if not bad_push:
+        r.ok(f.fq, f"{f.loc} reserved / non-allocatable physical registers are not pushed ({n_app} appending paths)")
     else:
-        r.fail(f.fq, Finding("C19.R2", f.fq, "push-guard", "push must return early for a physical register that is reserved or not allocatable", f.loc))
+        r.fail(f.fq, Finding("C19.R2", f.fq, "push-guard", "push must return early for a physical register that is reserved or not allocatable: " + bad_push[0], f.loc))
     cfg = CFG(f.node)
     app = [c for c in calls_in(f.node) if unparse(c.func) == "available.append"]
     rem = [n for n in walk_local(f.node) if isinstance(n, ast.If) and unparse(n.test) == "index in available"]
@@ -170,15 +190,20 @@ def check_zero(idx: Index, rep: Report) -> None:
     rets = [n for n in walk_local(f.node) if isinstance(n, ast.Return) and n.value is not None and unparse(n.value) == "Registers.ZERO"]
     if not rets:
         raise AnalysisError(f"{f.fq}: ZERO placement not found")
+    from ..astutil import norm_facts, text_facts
+
+    regp = f.node.args.args[1].arg
     for rt in rets:
-        facts = {(re.sub(r"\s+", " ", unparse(t)), p) for t, p in guard_facts(f.node, rt)}
-        need = [("(val := get_constant_value(reg)) is not None", True), ("val.value.data == 0", True), ("not reg.type.is_allocated", True)]
-        have = {(t, p) for t, p in facts} | {("not " + t, not p) for t, p in facts}
-        miss = [n for n in need if n not in have and (n[0].replace("not ", ""), not n[1]) not in facts]
-        if miss:
-            r.fail(f.fq, Finding("C19.R4", f.fq, "zero-without-constant-test", f"Registers.ZERO is chosen without {miss}: a non-zero value would read as 0", f.loc))
+        nf = norm_facts(text_facts(f.node, rt))
+        const_known = any(re.search(rf"get_constant_value\({regp}\)", t_) and re.search(r"is None$", t_) and not p_ for t_, p_ in nf)
+        is_zero = any(re.search(rf"get_constant_value\({regp}\)\)?\.value\.data == 0$|^\w+\.value\.data == 0$", t_) and p_ for t_, p_ in nf)
+        unalloc = (f"{regp}.type.is_allocated", False) in nf
+        if not (const_known and is_zero):
+            r.fail(f.fq, Finding("C19.R4", f.fq, "zero-without-constant-test", f"Registers.ZERO is chosen without the value being known to be the constant 0 (facts: {sorted(nf)[:4]}): a non-zero value would read as 0", f.loc))
+        elif not unalloc:
+            r.fail(f.fq, Finding("C19.R4", f.fq, "zero-for-allocated-register", f"Registers.ZERO is chosen without `not {regp}.type.is_allocated`: a zero constant that already has a register (pre-assigned a0, or tied to a loop-carried value) is retyped to `zero`, so the pre-assigned register is never written and its reader finds garbage", f.loc))
         else:
-            r.ok(f.fq, f"{f.loc} ZERO only for an unallocated value whose constant value is 0")
+            r.ok(f.fq, f"{f.loc} ZERO only for an unallocated value that is the constant 0")
 
 
 def check_live_ins(idx: Index, rep: Report) -> None:
